@@ -595,7 +595,7 @@ def _c18(bindir, tier, seed):
         jobs.append(miri_job("C18-miri-holder", "C18", "holder_stress", ["3", "2", "2", "3"], 16, seed, 1500))
         # the global functions on top of the holder: two racing set_global_default, a thread checking that 'is set' implies 'get works'
         jobs.append(miri_job("C18-miri-globals", "C18", "macro_miri", ["2", "1"], 16, seed, 1500, fail_marker="MACRO-ORACLE-FAILED"))
-        jobs.append(native_stress_job("C18-native-stress", "C18", bindir, "holder_stress", ["20000", "2", "3", "6"], 600, runs=4))
+        jobs.append(native_stress_job("C18-native-stress", "C18", bindir, "holder_stress", ["8000", "2", "3", "6"], 900, runs=4))
         # sampled schedules of configurations beyond the enumerated scope (2-4 threads, up to 4 operations per thread)
         jobs += shards(bindir, "holder_driver", "C18s", seed, 2, ["--mode", "sample", "--runs", "2500"], 1200)
         return jobs
